@@ -1,1 +1,14 @@
-/-! # C23 — property theorems (stub: not built yet) -/
+import PymocaVerif.Model.Index
+/-! # C23 — property theorems (in progress) -/
+namespace PymocaVerif.Index
+
+/-- A subscript on a scalar always makes generation raise. -/
+theorem scalar_subscript_error (cfg : Cfg) (s : Subs) (l : Option LoopRange) :
+    outcome cfg ⟨.scalar, s, l⟩ = none := by
+  cases l with
+  | none => simp [outcome, outcomeEq]
+  | some r =>
+    simp only [outcome]
+    cases loopValues cfg r <;> simp [outcomeLoop]
+
+end PymocaVerif.Index
